@@ -308,18 +308,22 @@ void KDTree<CoordType, ValueType>::collect_into(Node* n,
 template <typename CoordType, typename ValueType>
 bool KDTree<CoordType, ValueType>::delete_node(Node* n) {
   // replace the node with an appropriate node from its subtree, repeating until
-  // the node is a leaf node
+  // the node is a leaf node. the replacement is always the node with the
+  // minimum coordinate (along n's dimension) in the after_or_equal subtree:
+  // everything left in that subtree is still >= the replacement, and everything
+  // in the before subtree is still < it. (the maximum of the before subtree is
+  // not a valid replacement: if several nodes share that maximum, the others
+  // would end up on the before side of a node with an equal coordinate, and
+  // at/exists/erase would no longer find them.) if n has only a before subtree,
+  // all of it is >= its own minimum, so it becomes the after_or_equal subtree
   bool was_leaf_node = true;
   while (n->before || n->after_or_equal) {
     was_leaf_node = false;
-    Node* target;
-    if (n->before) {
-      target = KDTree::find_subtree_min_max(n->before, n->dim, true);
-    } else if (n->after_or_equal) {
-      target = KDTree::find_subtree_min_max(n->after_or_equal, n->dim, false);
-    } else {
-      throw std::logic_error("node is a leaf but still claims to be movable");
+    if (!n->after_or_equal) {
+      n->after_or_equal = n->before;
+      n->before = nullptr;
     }
+    Node* target = KDTree::find_subtree_min_max(n->after_or_equal, n->dim, false);
     n->pt = target->pt;
     n->value = std::move(target->value);
     n = target;
